@@ -1,4 +1,4 @@
-\* intended design as MC_Sybil.cfg, 5 operations
+\* intended design as MC_Sybil.cfg, joins without address too, 5 operations, 3 ticks
 SPECIFICATION Spec
 CONSTANTS
   MaxHistory = 2
